@@ -490,4 +490,74 @@ theorem translate_roundtrip_counterexample :
   revert h2
   decide
 
+
+/-! ### strict sub-path is a strict order (round 6)
+
+`is_subpath(folder, target, strict=True)` being truthy forces the separator-normalised target to be strictly
+longer than the folder, for every configuration (no well-formedness guard needed); hence it is irreflexive and
+asymmetric.  The engine relies on this when it decides that an object "left the root" (C12): a root can never be
+reported as lying strictly inside an object that itself lies strictly inside the root. -/
+
+private theorem isPrefix_single_eq (s : Char) (t : Str) (h : isPrefix [s] t = true) (hl : t.length ≤ 1) :
+    t = [s] := by
+  match t, h, hl with
+  | [y], h, _ => simp [isPrefix] at h; simp [h]
+  | [], h, _ => simp [isPrefix] at h
+  | _ :: _ :: _, _, hl => simp at hl
+
+private theorem strict_core (sep : Char) (ff tf ffc tfc : Str)
+    (hl1 : ffc.length = ff.length) (hl2 : tfc.length = tf.length)
+    (h : (if (ffc == tfc) = true then SubRes.no
+          else if (ffc == [sep] && isPrefix [sep] tfc) = true then SubRes.rel tf
+          else if (decide (tf.length > ff.length) && (tf[ff.length]? == some sep)) = true then
+            (if isPrefix ffc tfc = true then SubRes.rel (tf.drop ff.length) else SubRes.no)
+          else SubRes.no).truthy = true) :
+    ff.length < tf.length := by
+  split at h
+  · simp [SubRes.truthy] at h
+  · rename_i he
+    split at h
+    · rename_i hr
+      simp only [Bool.and_eq_true, beq_iff_eq] at hr
+      rcases Nat.lt_or_ge ff.length tf.length with hlt | hge
+      · exact hlt
+      · exfalso
+        have h1 : ffc.length = 1 := by rw [hr.1]; rfl
+        have : tfc = [sep] := isPrefix_single_eq _ _ hr.2 (by omega)
+        exact he (by rw [hr.1, this]; simp)
+    · split at h
+      · rename_i hl
+        simp only [Bool.and_eq_true, decide_eq_true_eq] at hl
+        exact hl.1
+      · simp [SubRes.truthy] at h
+
+/-- A strict sub-path is strictly longer (after separator normalisation) than its folder. -/
+theorem isSubpath_strict_longer (c : Cfg) (f t : Str)
+    (h : (isSubpath c f t true).truthy = true) :
+    (normSeps c f).length < (normSeps c t).length := by
+  unfold isSubpath at h
+  by_cases hft : (f.isEmpty || t.isEmpty) = true
+  · simp [hft, SubRes.truthy] at h
+  · simp only [hft, Bool.false_eq_true, if_false, if_true] at h
+    exact strict_core c.sep _ _ _ _ (by split <;> simp [lowerStr]) (by split <;> simp [lowerStr]) h
+
+/-- `is_subpath(…, strict=True)` is irreflexive and asymmetric: a folder is never strictly inside itself, and two
+    paths are never strictly inside each other (so a sync root cannot lie beneath an object that lies beneath it). -/
+theorem isSubpath_strict_irrefl (c : Cfg) (f : Str) : (isSubpath c f f true).truthy = false := by
+  cases h : (isSubpath c f f true).truthy
+  · rfl
+  · have := isSubpath_strict_longer c f f h; omega
+
+theorem isSubpath_strict_asymm (c : Cfg) (f t : Str) (h : (isSubpath c f t true).truthy = true) :
+    (isSubpath c t f true).truthy = false := by
+  cases h' : (isSubpath c t f true).truthy
+  · rfl
+  · have h1 := isSubpath_strict_longer c f t h
+    have h2 := isSubpath_strict_longer c t f h'
+    omega
+
+/-- non-vacuity: the hypothesis of `isSubpath_strict_longer/asymm` is met, on a case-sensitive and on a
+    case-folding configuration (mixed case and alternate separators in the target) -/
+example : (isSubpath (mkCfg true false) "/a".toList "/a/b".toList true).truthy = true := by decide
+example : (isSubpath (mkCfg false false) "/Root".toList "\\rOOT\\x".toList true).truthy = true := by decide
 end CS.Path
